@@ -13,6 +13,10 @@ T2 (correspondence, evaluated by vm_compute on the same inputs), everything thro
   order : the same (universe, request) under all creation orders must give the identical canonical observation
   seeds : a few universes re-run in fresh subprocesses under different PYTHONHASHSEED values
   doc   : plugin_docs.resolve_feature on the same universes against doc_resolve
+  hist  : second family, harness/c10_hist.py: histories of ONE process in which feature-group classes (criteria over name /
+          group options / context options) and compute-framework subclasses are created BETWEEN requests of 1..4 features;
+          Model/ResolveHist.v run_history on the same operation prefix; last request re-observed after a different history
+          in other / fresh processes
 """
 from __future__ import annotations
 
@@ -583,15 +587,24 @@ def run(rep: Any, tier: str, seed: int) -> None:
         "index prefix rule: Model/LinkSel.v is_a_part_of/supports_index (property C18) is reused",
         "next(iter(set)) of Feature.get_compute_framework is a choice parameter: only membership of the table type is checked",
         "Link validation, planning after resolution and the data path of session.run are outside this model (only their "
-        "observable outcome: one generated calculate_feature ran, the table type)"]
+        "observable outcome: one generated calculate_feature ran, the table type)",
+        "hand-written model Model/ResolveHist.v of Features(...) duplicate check / Feature.__eq__, the phase order of mlodaAPI.__init__, "
+        "Engine.setup_features_recursion with the growing link set, and of the process as a growing list of classes; the generated "
+        "match_feature_group_criteria is a criteria term interpreted twice (Python closure in harness/c10_hist.py, crit_eval in Coq)",
+        "late compute frameworks are modelled by number, installed root and the value of is_available() (Python attribute "
+        "inheritance is computed by the harness from the description); frameworks of other histories still alive are observed with a "
+        "harness-side walk of ComputeFramework.__subclasses__() and passed to the model as part of the initial process state",
+        "requested features are identified in Engine.feature_group_collection by their uuid (kept by mloda's deepcopy)"]
     big = tier == "thorough"
     n_univ, n_orders, n_req = (3000, 3, 5) if big else (150, 3, 5)
     universes = [gen_universe(rng, uid, n_orders, n_req) for uid in range(n_univ)]
     cases: List[Tuple[dict, dict]] = []
     docs: List[Tuple[dict, dict]] = []
-    for u in universes:
+    for n_done, u in enumerate(universes):
         for c in run_universe(u, seed):
             (docs if "doc" in c else cases).append((u, c))
+        if n_done % 50 == 49:
+            gc.freeze()        # the records collected so far hold no classes: keep them out of the per-universe gc.collect()
     found = False
 
     # ---- hash seeds: fresh processes
@@ -705,9 +718,20 @@ def run(rep: Any, tier: str, seed: int) -> None:
     rep.add("rule", "PRNG universes (VERIF_SEED) of 1-6 generated classes, chains <= 3, each created in 3 orders, 5 requests each "
                     "(API list / collector / feature framework+domain / links / simulated unavailability), all through "
                     "mloda.prepare + session.run; a subset re-run in fresh processes under other PYTHONHASHSEED values. "
-                    "non-trivial = at least two generated classes accept the requested name (distinct universe+request)")
+                    "non-trivial = at least two generated classes accept the requested name (distinct universe+request). "
+                    "Second family (harness/c10_hist.py): PRNG histories of one process = interleaved creation of feature-group classes "
+                    "(criteria over name / group options / context options), of compute-framework subclasses of installed or late "
+                    "frameworks, and requests with 1-4 features; every request compared with run_history on its operation prefix, the "
+                    "last request also after a definitions-first history in other processes. non-trivial there = request with several "
+                    "features or made after a class was created later than the first request (distinct operation prefix)")
     for u, c in (cases[0], cases[7], cases[len(cases) // 2]):
         rep.sample({"classes": u["classes"], "order": u["orders"][c["k"]], "request": u["requests"][c["ri"]], "obs": c["obs"]})
+
+    # ---- second family: histories of one process (classes created between requests), requests with several features
+    from harness import c10_hist
+    gc.freeze()
+    found = c10_hist.run(rep, tier, seed) or found
+    gc.unfreeze()
     if not pr.ok and not found:
         rep.finding("proof-broken", "Props/C10.v no longer checks",
                     {"failed_files": pr.failed_files, "forbidden": pr.forbidden, "log_tail": pr.log[-3000:]}, found_input=False)
@@ -716,6 +740,10 @@ def run(rep: Any, tier: str, seed: int) -> None:
 def replay(path: str) -> int:
     r = json.load(open(path))["replay"]
     print(json.dumps({k: v for k, v in r.items() if k != "universe"}, indent=1))
+    if r.get("kind") in ("hist", "hist-dep"):
+        from harness import c10_hist
+        c10_hist.replay(r)
+        return 0
     u = r.get("universe")
     if not u:
         return 0
